@@ -44,6 +44,10 @@ func (w *World) checkEntriesBytes(op *Op) []entryJSON {
 			return nil
 		}
 		st := w.be.Log.Seq[idx]
+		if v := w.x.foreignAt(idx); v != "" {
+			s.Violate("unknown-hash-served", v, "op%03d get-entries(%d,%d): index %d refers to its issuance chain by a hash the store does not hold (%s), yet it was served with %d bytes of extra_data", op.ID, op.A, op.B, idx, v, len(e.ExtraData))
+			return nil
+		}
 		if !bytes.Equal(e.LeafInput, st.Value) {
 			s.Violate("entries-bytes", "leaf_input", "op%03d get-entries(%d,%d): leaf_input at position %d is not the stored leaf of index %d", op.ID, op.A, op.B, i, idx)
 			return nil
